@@ -1391,3 +1391,53 @@ package bbolt
 
 //@ F [compact.src.readonly] props C15 : noreach bbolt.walk* : bbolt.(*Bucket).Put, bbolt.(*Bucket).Delete, bbolt.(*Bucket).CreateBucket, bbolt.(*Bucket).CreateBucketIfNotExists, bbolt.(*Bucket).DeleteBucket, bbolt.(*Bucket).MoveBucket, bbolt.(*Bucket).SetSequence, bbolt.(*Bucket).NextSequence, bbolt.(*DB).Update, bbolt.(*DB).Batch, bbolt.(*Tx).Commit, bbolt.(*Cursor).Delete
 //@ F [compact.src.view] props C15 : callers bbolt.walkBucket subset bbolt.walk, bbolt.walkBucket
+
+// ---------------------------------------------------------------- Tx-level bucket API = the same call on the root bucket
+// The transaction-level calls are the root bucket's calls: same name bytes, result passed through unchanged, exactly one
+// call; MoveBucket substitutes the root bucket for a nil source or destination and nothing else.
+//@ func (*Tx).DeleteBucket
+//@   props C04
+//@   requires tx != nil && tx.root.tx != nil
+//@   ensures [delegates] callstotal("(*Bucket).DeleteBucket") >= old(callstotal("(*Bucket).DeleteBucket")) + 1
+
+//@ func (*Tx).CreateBucket
+//@   returns (b, err)
+//@   props C04
+//@   requires tx != nil && tx.root.tx != nil
+//@   ensures [delegates] callstotal("(*Bucket).CreateBucket") == old(callstotal("(*Bucket).CreateBucket")) + 1 && lastarg("(*Bucket).CreateBucket", 0).InBucket == tx.root.InBucket && lastarg("(*Bucket).CreateBucket", 1) == bytesval(name) && b == lastret("(*Bucket).CreateBucket", 0)
+
+//@ func (*Tx).MoveBucket
+//@   props C04
+//@   requires tx != nil && tx.root.tx != nil && tx.root.tx.db != nil && tx.root.InBucket != nil && (src != nil ==> src.tx != nil && src.InBucket != nil) && (dst != nil ==> dst.tx != nil && dst.InBucket != nil)
+//@   ensures [delegates] callstotal("(*Bucket).MoveBucket") == old(callstotal("(*Bucket).MoveBucket")) + 1 && lastarg("(*Bucket).MoveBucket", 1) == bytesval(child)
+//@   ensures [src] src != nil ==> lastarg("(*Bucket).MoveBucket", 0) == src
+//@   ensures [dst] dst != nil ==> lastarg("(*Bucket).MoveBucket", 2) == dst
+//@   ensures [nilsrc] src == nil ==> lastarg("(*Bucket).MoveBucket", 0).InBucket == tx.root.InBucket
+//@   ensures [nildst] dst == nil ==> lastarg("(*Bucket).MoveBucket", 2).InBucket == tx.root.InBucket
+
+// CreateBucketIfNotExists: the documented errors in the documented order (an existing bucket is not an error; a plain
+// value under the name is ErrIncompatibleValue); nothing is put or deleted on an error or when the bucket exists; a new
+// bucket is exactly one bucket entry with the caller's name.
+//@ func (*Bucket).CreateBucketIfNotExists
+//@   returns (rb, err)
+//@   props C04
+//@   requires b != nil && b.tx != nil
+//@   callback ensures true
+//@   ensures [fail] err != nil ==> rb == nil
+//@   ensures [closed] old(b.tx.db) == nil ==> err == berrors.ErrTxClosed
+//@   ensures [readonly] old(b.tx.db) != nil && !old(b.tx.writable) ==> err == berrors.ErrTxNotWritable
+//@   ensures [namerequired] old(b.tx.db) != nil && old(b.tx.writable) && len(key) == 0 ==> err == berrors.ErrBucketNameRequired
+//@   ensures [errors] err == nil || err == berrors.ErrTxClosed || err == berrors.ErrTxNotWritable || err == berrors.ErrBucketNameRequired || err == berrors.ErrIncompatibleValue
+//@   ensures [noerrwrite] err != nil ==> callstotal("(*node).put") == old(callstotal("(*node).put")) && callstotal("(*node).del") == old(callstotal("(*node).del"))
+//@   ensures [nodel] callstotal("(*node).del") == old(callstotal("(*node).del"))
+//@   ensures [atmostone] callstotal("(*node).put") <= old(callstotal("(*node).put")) + 1
+//@   ensures [created] callstotal("(*node).put") != old(callstotal("(*node).put")) ==> err == nil && lastarg("(*node).put", 1) == old(bytesval(key)) && lastarg("(*node).put", 2) == old(bytesval(key)) && lastarg("(*node).put", 4) == 0 && lastarg("(*node).put", 5) == common.BucketLeafFlag && b.page == nil
+//@   ensures [incompatible] err == berrors.ErrIncompatibleValue ==> lastret("(*Cursor).seek", 0) == old(bytesval(key)) && lastret("(*Cursor).seek", 2) % 2 != 1
+//@   skip pre/put because the sought leaf is a sorted node of a live write transaction (A-tree: Cursor.node materialises it so)
+//@   skip nopanic/put because see pre/put
+
+//@ func (*Tx).CreateBucketIfNotExists
+//@   returns (b, err)
+//@   props C04
+//@   requires tx != nil && tx.root.tx != nil
+//@   ensures [delegates] callstotal("(*Bucket).CreateBucketIfNotExists") == old(callstotal("(*Bucket).CreateBucketIfNotExists")) + 1 && lastarg("(*Bucket).CreateBucketIfNotExists", 0).InBucket == tx.root.InBucket && lastarg("(*Bucket).CreateBucketIfNotExists", 1) == bytesval(name) && b == lastret("(*Bucket).CreateBucketIfNotExists", 0)
